@@ -14,6 +14,7 @@ from typing import (
 )
 
 from pyparsing import (
+    Keyword,
     ParseException,
     Word,
     alphanums,
@@ -276,12 +277,14 @@ def parse_condition_expression(
 ) -> ConditionExpression:
     identifier = Word(alphanums + "_-")
     identifier.set_parse_action(ConditionIdentifier.from_parsed)
+    # Operators are whole words: an identifier like "notes" must not be split into "not es".
+    ident_chars = alphanums + "_-"
     condition_parser = infix_notation(
         identifier,
         [
-            ("not", 1, opAssoc.RIGHT, ConditionNOT.from_parsed),
-            ("and", 2, opAssoc.LEFT, ConditionAND.from_parsed),
-            ("or", 2, opAssoc.LEFT, ConditionOR.from_parsed),
+            (Keyword("not", ident_chars=ident_chars), 1, opAssoc.RIGHT, ConditionNOT.from_parsed),
+            (Keyword("and", ident_chars=ident_chars), 2, opAssoc.LEFT, ConditionAND.from_parsed),
+            (Keyword("or", ident_chars=ident_chars), 2, opAssoc.LEFT, ConditionOR.from_parsed),
         ],
     )
     try:
